@@ -10,6 +10,7 @@ index-range map a vector denotes; `Inv` is the storage invariant
 An operation returning `none` in the model is an access outside the owned storage.
 -/
 import StirVerif.C11.ProofsMachine
+import StirVerif.C11.ProofsNDim
 
 namespace StirVerif.C11
 open Vec
@@ -359,6 +360,41 @@ theorem C11_F1b_assignOld_empty_unequal :
 theorem C11_F1b_assign_fixed_empty_equal :
     ((Vec.empty.resize? 3 5).bind fun v => (v.assign? Vec.empty).bind fun r => r.beq? Vec.empty)
       = some true := by decide
+
+/-! ### N-dimensional arrays as nested index-range maps (model `RArr`, tied to `Array<2..4,int>` by the `nd …` lines of the
+    correspondence run: the real array is serialised level by level and the real `at()` answers the same coordinate) -/
+
+/-- "arrays behave as index-range maps … checked accesses outside the range are reported as errors": for every nesting depth,
+    every shape (regular or not, empty rows included) and EVERY coordinate, `Array<n>::at(coordinate)` — the chain
+    `at(c[1]).at(c[2])…` — returns the value the finite map holds at that coordinate, and throws exactly when the map has no
+    such coordinate. -/
+theorem C11_nd_checked_access_is_map (a : RArr) (cs : List Int) : a.at? cs = a.elems.lookup cs :=
+  RArr.at?_eq_lookup a cs
+
+/-- `size_all()` is the number of entries of the map, i.e. of the elements `begin_all()` … `end_all()` visits -/
+theorem C11_nd_size_all (a : RArr) : a.elems.length = a.sizeAll := RArr.elems_length a
+
+/-- non-vacuity: an irregular 2-D array (row 5 has indices -1..1, row 6 is empty, row 7 has index 3 only) -/
+example : (RArr.node 5 [.leaf (-1) [10, 11, 12], .leaf 0 [], .leaf 3 [13]]).elems
+    = [([5, -1], 10), ([5, 0], 11), ([5, 1], 12), ([7, 3], 13)] := by decide
+example : (RArr.node 5 [.leaf (-1) [10, 11, 12], .leaf 0 [], .leaf 3 [13]]).at? [7, 3] = some 13 := by decide
+example : (RArr.node 5 [.leaf (-1) [10, 11, 12], .leaf 0 [], .leaf 3 [13]]).at? [6, 0] = none := by decide
+example : (RArr.node 5 [.leaf (-1) [10, 11, 12], .leaf 0 [], .leaf 3 [13]]).at? [5, 2] = none := by decide
+example : (RArr.node 5 [.leaf (-1) [10, 11, 12], .leaf 0 [], .leaf 3 [13]]).at? [4, 0] = none := by decide
+
+/-- a broken variant for comparison: an access that checks every level but the last (what an unchecked `operator[]` in the
+    innermost `at` amounts to, with the index clamped into the allocation) answers outside the map -/
+def RArr.atLastUnchecked? : RArr → List Int → Option Int
+  | .leaf lo xs, [i] => xs[(i - lo).toNat]? <|> xs.getLast?
+  | .node lo rows, i :: cs =>
+    match listAt? lo rows i with
+    | some (.leaf lo' xs) => RArr.atLastUnchecked? (.leaf lo' xs) cs
+    | _ => none
+  | _, _ => none
+
+theorem C11_nd_last_level_unchecked_is_wrong :
+    (RArr.node 5 [.leaf (-1) [10, 11, 12]]).atLastUnchecked? [5, 2] = some 12 ∧
+    (RArr.node 5 [.leaf (-1) [10, 11, 12]]).elems.lookup [5, 2] = none := by decide
 
 /-! ### row-major iteration of nested arrays (model of `FullArrayIterator`) -/
 
